@@ -164,6 +164,11 @@ func runBnd(p bndProg, hc *hullCtx, coll *collector, incs func(head int, back []
 		if len(ins) <= maxDisjuncts {
 			return ins
 		}
+		if len(p.succs(b)) == 0 && len(ins) <= 8*maxDisjuncts {
+			// exit blocks are small and carry the result obligations: a hull of "error code" and
+			// "cursor" states would lose exactly the disjunction those obligations state
+			return ins
+		}
 		// too many disjuncts: merge per predecessor (trace partitioning by incoming edge); computed afresh
 		// second criterion: which variables hold constants (a state with anchor = 0 is kept apart from
 		// states where it is symbolic: their union is usually not convex)
